@@ -667,7 +667,9 @@ func (u *Unit) mapKeys(mt *types.Map) (string, string, string, string) {
 func (u *Unit) mapDom(st *State, m Val, mt *types.Map) string {
 	_, _, mdKey, _ := u.mapKeys(mt)
 	h := u.heapTerm(st, mdKey, u.sortOfHeapKey(mdKey))
-	return "(select " + h + " " + m.T + ")"
+	ks := u.reg.sortOf(mt.Key())
+	// a nil map has no keys
+	return ite(eq(m.T, "0"), "((as const (Array "+ks+" Bool)) false)", "(select "+h+" "+m.T+")")
 }
 
 func (u *Unit) mapLookup(st *State, m, k Val, mt *types.Map) (Val, Val) {
@@ -691,6 +693,7 @@ func (u *Unit) mapStore(st *State, m, k, v Val, mt *types.Map) {
 	u.checkAssigns(st, mdKey, m, nil)
 	st.heap[mdKey] = "(store " + hd + " " + m.T + " (store (select " + hd + " " + m.T + ") " + k.T + " true))"
 	st.heap[mvKey] = "(store " + hv + " " + m.T + " (store (select " + hv + " " + m.T + ") " + k.T + " " + v.T + "))"
+	u.bumpEpoch(st)
 }
 
 func (u *Unit) mapDelete(st *State, m, k Val, mt *types.Map) {
@@ -699,6 +702,7 @@ func (u *Unit) mapDelete(st *State, m, k Val, mt *types.Map) {
 	u.checkAssigns(st, mdKey, m, nil)
 	// delete on a nil map is a no-op
 	st.heap[mdKey] = ite(eq(m.T, "0"), hd, "(store "+hd+" "+m.T+" (store (select "+hd+" "+m.T+") "+k.T+" false))")
+	u.bumpEpoch(st)
 }
 
 // ---------------------------------------------------------------------------
